@@ -138,7 +138,10 @@ def check(tier, seed, replay=None):
                 ('(define "a" 1 (define "b" (+ @a 1) (define "a" 10 @b)))', '11'), ('(set "v" 1 (define "g" (+ :v 1) (set "v" 10 @g)))', '11'),
                 ('(define "x" (size .ls) (set "x" (size .l) (push [] :x @x (set "x" 0 :x) (define "x" 0 @x))))', '(push [] (size .l) (size .ls) 0 0)'),
                 ('(define "m" (+ . 1) (| .n @m @m (define "m" (* . 2) @m)))', '(* (+ (+ .n 1) 1) 2)'),
-                ('(set "x" .n (| .m (define "x" (+ . :x) @x)))', '(+ .m .n)')]
+                ('(set "x" .n (| .m (define "x" (+ . :x) @x)))', '(+ .m .n)'),
+                # a macro that takes the place of one of the same name sees, like every macro, the macros bound where it is USED
+                ('(define "a" 1 (define "a" @b (define "b" 5 @a)))', '5'), ('(define "b" 1 (define "a" 0 (define "a" (+ . @b) (define "b" 100 (| 20 @a)))))', '120'),
+                ('(define "k" .n (define "k" (+ @j 1) (define "j" .m @k)))', '(+ .m 1)')]
         for i in range(len(SELF) * (2 if quick else 40)):
             bound, plain = SELF[i % len(SELF)]
             inp = X.typed_input(rnd)
